@@ -736,6 +736,7 @@ def make_plan(seed, run, profile_name, clean=None, force=None):
         return kind in rates or kind in forced_kinds
 
     task = _wchoice(rng, prof["tasks"])
+    # (fp_validation2d ground truth is loaded without ROIs and paired by uuid: the ROI-less path of C11, not simulated)
     dim2 = prof.get("dim2d_p", 0.0) > 0 and task in ("detection", "tracking") and rng.random() < prof["dim2d_p"]
     world = _make_world(rng, prof, task, dim2)
     world["_task"] = task
